@@ -1,7 +1,8 @@
 (* C07 — Numba-compiled code behaves like the interpreter.  Statements only.
    gen/NbApi*.v (T5, regenerated from the source on every run): every program point of the numba-supported API —
    getters, conversions, unary / binary methods and operators over all 20 coordinate systems x 2 flavors (x second
-   operand), vector.obj over coordinate-name sets — executed symbolically (i) through the overload layer of
+   operand), vector.obj over coordinate-name sets, and the Awkward typer (the Numba type given to a record of an Awkward vector array
+   with each documented field-name set, next to the type of the equivalent object) — executed symbolically (i) through the overload layer of
    _numba_object.py at typing level and (ii) through the real object backend.  An outcome is the result class,
    its coordinate systems and one expression per stored coordinate in terms of calls of the generated compute
    definitions on the operands' stored coordinates: equal outcomes = same class, flavor, dimension, coordinate system
